@@ -1016,7 +1016,10 @@ def _fixed(mode):
                                     dict(target="prev_input", action="inplace", f=2.0, vec=False)])],
                      obs_end=[dict(target="learning", action="scale_range", f=2.0, vec=False)])
         # three and four features (tensor hats over > 2 axes; lmax - lmin = 2 gives component grids with several multi-point axes)
-        cases = [base, other, dict(base, rng=31337, d=3, lmin=1, lmax=3), dict(other, rng=2718, d=3, lmin=2, lmax=2 if mode == "std" else 3)]
+        # (the second one with a fully labelled first test set that the caller keeps using afterwards)
+        cases = [base, other, dict(base, rng=31337, d=3, lmin=1, lmax=3),
+                 dict(other, rng=2718, d=3, lmin=2, lmax=2 if mode == "std" else 3,
+                      ops=[dict(other["ops"][0], unl=0.0), other["ops"][1]])]
         if mode == "std":
             cases.append(dict(base, rng=1618, d=4, k=2, n=[30, 30], lmin=1, lmax=3, layout="stripes"))
         if mode == "dw":
